@@ -247,7 +247,7 @@ def analyse_method(run, pkg, K, m, attrs, ex):
                 run.ob("R-SEL", fq, key, None, f"column {col} accumulates histogram counts", f"statement not understood: {key_of(ev)[:100]}",
                        loc=loc_of(it, ev))
                 continue
-            hi = hist_info(v[1])
+            hi = hist_info(v[1], weights_as_mask=True)
             okb = eqv(ex(hi["bins"] or NONE), want_bins)
             run.ob("R-ALG", fq, f"{col}:bins", okb, f"histogram for {col} uses maxbin bins", f"bins = {show(hi['bins'])[:60] if hi['bins'] else None}",
                    witness=None if okb else "bin count differs from the row count / other columns", loc=loc_of(it, ev), sound=True)
